@@ -145,6 +145,16 @@ func handleCCR() diam.HandlerFunc {
 			return
 		}
 
+		// every answer echoes the identifiers of its request
+		cca = charging_datatype.AccountDebitResponse{
+			SessionId:       ccr.SessionId,
+			OriginHost:      ccr.DestinationHost,
+			OriginRealm:     ccr.DestinationRealm,
+			CcRequestType:   ccr.CcRequestType,
+			CcRequestNumber: ccr.CcRequestNumber,
+			EventTimestamp:  datatype.Time(time.Now()),
+		}
+
 		switch ccr.RequestedAction {
 		case charging_datatype.CHECK_BALANCE:
 			logger.AcctLog.Errorf("CHECK_BALANCE not supported")
@@ -193,21 +203,13 @@ func handleCCR() diam.HandlerFunc {
 			quotaExp := quotaLen - 1
 			quotaVal := quotaInt / int64(math.Pow10(quotaExp))
 
-			cca = charging_datatype.AccountDebitResponse{
-				SessionId:       ccr.SessionId,
-				OriginHost:      ccr.DestinationHost,
-				OriginRealm:     ccr.DestinationRealm,
-				CcRequestType:   ccr.CcRequestType,
-				CcRequestNumber: ccr.CcRequestNumber,
-				EventTimestamp:  datatype.Time(time.Now()),
-				RemainingBalance: &charging_datatype.RemainingBalance{
-					UnitValue: &charging_datatype.UnitValue{
-						ValueDigits: datatype.Integer64(quotaVal),
-						Exponent:    datatype.Integer32(quotaExp),
-					},
+			cca.RemainingBalance = &charging_datatype.RemainingBalance{
+				UnitValue: &charging_datatype.UnitValue{
+					ValueDigits: datatype.Integer64(quotaVal),
+					Exponent:    datatype.Integer32(quotaExp),
 				},
-				MultipleServicesCreditControl: creditControl,
 			}
+			cca.MultipleServicesCreditControl = creditControl
 		}
 
 		logger.AcctLog.Infof("UE [%s], Rating group [%d], quota [%d]", subscriberId, rg, quota)
